@@ -112,21 +112,23 @@ Theorem c09_rename_transparent_default_fuel :
 Proof. exact rename_transparent_default. Qed.
 Print Assumptions c09_rename_transparent_default_fuel.
 
-(* the variables mapper of the implementation: the names it hands out are pairwise distinct, and
-   when every defined variable is renamed no two definitions of the result share a name ... *)
-Theorem c09_mapper_no_collision_partial :
-  forall o, NoDup (op_var_names o) -> (forall n, In n (op_var_names o) -> In n (collect_op o)) ->
+(* the variables mapper of the implementation (as repaired: names of definitions that keep their
+   name are reserved): no two definitions of the result share a name, and the names it hands out
+   are pairwise distinct -- the renaming is one-to-one, which is what c09_rename_transparent needs *)
+Theorem c09_mapper_no_collision :
+  forall o, NoDup (op_var_names o) ->
   NoDup (op_var_names (fst (map_variables o))) /\ NoDup (map fst (snd (map_variables o))).
-Proof. exact mapper_no_collision_partial_proof. Qed.
-Print Assumptions c09_mapper_no_collision_partial.
+Proof. exact mapper_no_collision_proof. Qed.
+Print Assumptions c09_mapper_no_collision.
 
-(* ... but a variable that is NOT renamed (Upload-typed; or used only inside a list / object
-   literal) can collide with a handed-out name: two definitions, one name *)
-Theorem c09_mapper_collision_refuted :
+(* historical (before the repair, [map_variables_gen false]): a variable that was NOT renamed
+   (Upload-typed; or used only inside a list / object literal) could collide with a handed-out
+   name: two definitions, one name *)
+Theorem c09_mapper_collision_historical_refuted :
   exists o, NoDup (op_var_names o) /\ uses_defined_b o = true /\
-            ~ NoDup (op_var_names (fst (map_variables o))).
-Proof. exact mapper_collision_refuted_proof. Qed.
-Print Assumptions c09_mapper_collision_refuted.
+            ~ NoDup (op_var_names (fst (map_variables_gen false o))).
+Proof. exact mapper_collision_historical_refuted_proof. Qed.
+Print Assumptions c09_mapper_collision_historical_refuted.
 
 (* (iv) cache_key_sound: equal keys => equal printed operation => equal normalised operation =>
    equal plans; and over any history the plans served (cache hits included) are the fresh plans.
